@@ -20,6 +20,8 @@ import re
 
 from vf import digest as dg, common, javac, irwalk, terms
 
+R2_RULES = {'INIT', 'ARG', 'RET', 'COND', 'ASSIGN', 'ELEM', 'DEFAULT', 'TARG', 'OVERRIDE', 'INFER'}
+
 ALLOWED = [
     (re.compile(r'\.var_type$'), 'var_type'),
     (re.compile(r'\.ret_type$'), 'ret_type'),
@@ -68,6 +70,14 @@ class Monitor:
             return
         self.before = dg.snapshot(program)
         self.inv_before = self._inventory(program)
+        # findings of the reference checker in inference mode BEFORE this erasure (baseline of R2)
+        self.base_findings = None
+        try:
+            from vf import refcheck
+            ck = refcheck.Checker(program, self.case.lang, infer=True).run()
+            self.base_findings = {(f['rule'], f['msg']) for f in ck.findings}
+        except RecursionError:
+            pass
 
     def _inventory(self, program):
         """id(node) -> (class, name, declared var/ret type term) for declarations."""
@@ -192,6 +202,32 @@ class Monitor:
                 if f['rule'] == 'INFER':
                     bad = True
                     out.violation({'rule': 'R2-return-type-not-inferable'}, f['msg'], w)
+        except RecursionError:
+            out.skip('checker-recursion')
+        # R2 (inference mode): the erased program re-checked with every omitted annotation replaced by
+        # what the model of compiler inference yields; a definite error that the program did not have
+        # before this erasure is a violation
+        try:
+            if self.base_findings is not None:
+                ck = refcheck.Checker(program, self.case.lang, infer=True).run()
+                out.ev('inference-mode-runs')
+                out.ev('inference-mode:annotations-recovered', ck.stats.get('INFER', 0))
+                for k2, v2 in ck.unjudged.items():
+                    if k2.startswith('INFER:') or k2.startswith('inferred-differs'):
+                        out.ev('inference-mode:' + k2, v2)
+                seen = set()
+                for f in ck.findings:
+                    key = (f['rule'], f['msg'])
+                    if key in self.base_findings or key in seen or f['rule'] not in R2_RULES:
+                        continue
+                    seen.add(key)
+                    bad = True
+                    out.violation({'rule': 'R2-inference-mode', 'check': f['rule'], 'lang': self.case.lang,
+                                   'kind': f['extra'].get('kind')},
+                                  'after erasure %d (types re-inferred): %s' % (k, f['msg'][:300]),
+                                  dict(w, finding=f['msg'], differs=[
+                                      (a, b, terms.term_str(c), terms.term_str(d2))
+                                      for a, b, c, d2 in getattr(ck, 'inferred_differs', [])[:6]]))
         except RecursionError:
             out.skip('checker-recursion')
         if not bad:
